@@ -529,16 +529,22 @@ func (c *cmafIngester) sendMediaSegments(ctx context.Context, nextSegNr, nowMS i
 				refSegEntries = c.asset.generateTimelineEntries(rd.repID, wTimes, atoMS)
 				se = refSegEntries
 			} else {
-				switch rd.contentType {
-				case "video", "text", "image":
+				_, inAsset := c.asset.Reps[rd.repID]
+				switch {
+				case !inAsset: // Generated time subtitles follow the reference track (time in ms below)
+					se = refSegEntries
+				case rd.contentType == "video", rd.contentType == "text", rd.contentType == "image":
 					se = c.asset.generateTimelineEntries(rd.repID, wTimes, atoMS)
-				case "audio":
+				case rd.contentType == "audio":
 					se = c.asset.generateTimelineEntriesFromRef(refSegEntries, rd.repID)
 				default:
 					return fmt.Errorf("unknown content type %s", rd.contentType)
 				}
 			}
 			segTime := int(se.lastTime())
+			if _, inAsset := c.asset.Reps[rd.repID]; !inAsset && se.mediaTimescale != 0 {
+				segTime = segTime * SUBS_TIME_TIMESCALE / int(se.mediaTimescale)
+			}
 			segPart = replaceTimeOrNr(rd.mediaPattern, segTime)
 			segPath := fmt.Sprintf("%s/%d%s", rd.repID, segTime, rd.extension)
 			if c.streamsURLs {
